@@ -228,3 +228,44 @@ def eval_cases(module, cases, nparts=12, env=None, timeout=900, cfg=None, keep_o
     if len(out) != len(cases):
         raise TLCError(f'{module}: {len(cases)} cases in, {len(out)} records out')
     return out, tot
+
+
+def validate_trace(ctx, module, events, nparts=10, timeout=1800):
+    """Batch trace validation: events (each with a unique 'id') are split over nparts TLC processes running the trace
+    specification `module` (Trace == JsonDeserialize(IOEnv.TRACE_FILE); emits [n, bad]).  Returns the list of
+    <<event id, failing clauses>>; every part must consume its whole trace (POSTCONDITION + count)."""
+    import uuid
+    os.makedirs(WORK, exist_ok=True)
+    files = []
+    for p in range(nparts):
+        part = events[p::nparts]
+        if not part:
+            continue
+        fn = os.path.join(WORK, f'trace_{module}_{uuid.uuid4().hex[:10]}.json')
+        with open(fn, 'w') as f:
+            json.dump(part, f)
+        files.append((fn, len(part)))
+
+    def one(x):
+        fn, n = x
+        r = run_tlc(module, env={'TRACE_FILE': fn}, workers=1, timeout=timeout)
+        if len(r.emits) != 1 or r.emits[0]['n'] != n:
+            raise TLCError(f'{module}: trace not consumed to its end')
+        return r
+    try:
+        with ThreadPoolExecutor(max_workers=12) as ex:
+            rs = list(ex.map(one, files))
+    finally:
+        for fn, _ in files:
+            try:
+                os.unlink(fn)
+            except OSError:
+                pass
+    bad = []
+    for r in rs:
+        ctx.states += r.distinct
+        ctx.transitions += r.generated
+        bad += r.emits[0]['bad']
+    ctx.tlc_runs.append({'model': f'{module} ({len(events)} events in {len(files)} parts)', 'distinct_states': sum(r.distinct for r in rs),
+                         'states_generated': sum(r.generated for r in rs), 'wall_s': round(max(r.wall for r in rs), 2)})
+    return bad
